@@ -86,6 +86,30 @@ def const_value(src: str, name: str):
     return eval_const(m.group(1)) if m else None
 
 
+
+def cluster_session_creation(repo: Path):
+    """C17 (round 4): every way a NodeSession is created.
+    * client.rs: each `pub async fn connect*` -> (fn, NodeServerMessage variant it casts, is_server literal)
+    * node.rs: each arm of NodeServer::handle that calls NodeSession::new -> (arm, cookie argument, is_server argument)"""
+    client = strip_comments(read(repo, "ractor_cluster/src/node/client.rs"))
+    casts = []
+    for m in re.finditer(r"pub async fn (\w+)", client):
+        body = fn_body(client, m.group(1), m.start()) or ""
+        for c in re.finditer(r"NodeServerMessage::(\w+)\s*\{", body):
+            end = body.find(")?;", c.end())
+            iss = re.findall(r"is_server:\s*(\w+)", body[c.end(): end if end >= 0 else len(body)])
+            casts.append((m.group(1), c.group(1), ",".join(iss) if iss else "?"))
+    node = strip_comments(read(repo, "ractor_cluster/src/node.rs"))
+    sites = []
+    for m in re.finditer(r"Self::Msg::(\w+)\s*\{[^}]*\}\s*=>\s*\{", node):
+        # the arm's text up to the next arm
+        nxt = re.search(r"\n            Self::Msg::", node[m.end():])
+        arm = node[m.end(): m.end() + (nxt.start() if nxt else 0)]
+        for c in re.finditer(r"NodeSession::new\(\s*([^,]+),\s*([^,]+),\s*([^,]+),", arm):
+            sites.append((m.group(1), c.group(3).strip(), c.group(2).strip()))
+    return casts, sites
+
+
 def main():
     ap = argparse.ArgumentParser()
     ap.add_argument("--repo", default="/repo")
@@ -270,6 +294,12 @@ def main():
     w("")
     w("/-- `thread_local/inner.rs` twins token-identical to `actor.rs` (modulo the boxed loop future) -/")
     w(f"def threadLocalTwins : List (String × Bool) := [{', '.join(f'({lean_str(k)}, {str(v).lower()})' for k, v in twins.items())}]")
+    w("")
+    cc_casts, cc_sites = cluster_session_creation(repo)
+    w("/-- C17: (client.rs connect fn, NodeServerMessage variant it casts, `is_server` literal) -/")
+    w(f"def clientConnectCasts : List (String × String × String) := [{', '.join(f'({lean_str(a)}, {lean_str(b)}, {lean_str(c)})' for a, b, c in cc_casts)}]")
+    w("/-- C17: (arm of NodeServer::handle calling NodeSession::new, cookie argument, is_server argument) -/")
+    w(f"def sessionCreationSites : List (String × String × String) := [{', '.join(f'({lean_str(a)}, {lean_str(b)}, {lean_str(c)})' for a, b, c in cc_sites)}]")
     w("")
     w("end Extracted")
     text = "\n".join(out) + "\n"
